@@ -150,6 +150,12 @@ class Interp:
     def equal(self, a, b, node):
         if isinstance(a, (int, bool, str)) and isinstance(b, (int, bool, str)):
             return a == b
+        if isinstance(a, Opt) and isinstance(b, Opt):
+            if a.some != b.some:
+                return False
+            return True if not a.some else self.equal(a.v, b.v, node)
+        if isinstance(a, Res) and isinstance(b, Res) and a.ok != b.ok:
+            return False
         raise Unanalysable(f"comparison of {a!r} and {b!r} undecided")
 
     def match_ctor(self, name, elems, val, env, node):
